@@ -356,6 +356,9 @@ func genAction(t *rapid.T) Action {
 					o.F[0] = ops.F32(float32(rapid.IntRange(1*4, 30*4).Draw(t, "rx")) / 4)
 					o.F[1] = ops.F32(float32(rapid.IntRange(1*4, 30*4).Draw(t, "ry")) / 4)
 					o.F[2] = ops.F32(float32(rapid.IntRange(0, 7).Draw(t, "rot")) / 8)
+					if q := rapid.IntRange(0, 7).Draw(t, "negr"); q < 2 {
+						o.F[q] = -o.F[q] // the sign of a radius is ignored (a mirrored path has negative ones)
+					}
 				}
 				a.Draw = append(a.Draw, o)
 			}
